@@ -43,8 +43,15 @@ class SlowFirst:
         return float(np.real(qutip.expect(qutip.sigmaz(), state)))
 
 
-def nm_rate(t):
-    return 0.5 - 0.9 * np.sin(2.5 * t)
+def nm_rate(t, amp):
+    return 0.5 - amp * np.sin(2.5 * t)
+
+
+def h_mod(t, w):
+    return 1.0 + (w - 1.0) * np.sin(t)
+
+
+ARGS0 = {"w": 1.0, "amp": 0.9}
 
 
 def problem():
@@ -58,12 +65,14 @@ def problem():
 def make_solver(name, **opt):
     import qutip
     H, c, psi0 = problem()
+    # the Hamiltonian and the non-Markovian rate take arguments (at their default values the problem is the constant one)
+    H = qutip.QobjEvo([0.6 * qutip.sigmax(), [0.3 * qutip.sigmaz(), h_mod]], args={"w": ARGS0["w"]})
     o = {"progress_bar": "", "keep_runs_results": True, "store_states": True}
     o.update(opt)
     if name == "mc":
         return qutip.MCSolver(H, c, options=o), psi0
     if name == "nm_mc":
-        return qutip.NonMarkovianMCSolver(H, [(qutip.sigmam(), qutip.coefficient(nm_rate))], options=o), psi0
+        return qutip.NonMarkovianMCSolver(H, [(qutip.sigmam(), qutip.coefficient(nm_rate, args={"amp": ARGS0["amp"]}))], options=o), psi0
     o["dt"] = 0.02
     o["store_measurement"] = True
     if name == "sse":
@@ -139,6 +148,26 @@ def relational(rep, tier, rng):
         sol.run(st, TL, ntraj=3, e_ops=eops, seeds=77)
         sol.run(st, TL[2:], ntraj=2, e_ops=eops, seeds=78)
         compare("after-other-runs-on-the-same-solver", sol.run(st, TL, ntraj=3, e_ops=eops, seeds=list(seeds[:3])), [0, 1, 2])
+        # (2c) after runs with other arguments over the same time list, the step interface and (stochastic solvers) a
+        #      replay from a measurement record, the original arguments give the original trajectories again
+        sol, st = make_solver(name)
+        other = {"w": 1.7, "amp": 0.2} if name == "nm_mc" else {"w": 1.7}
+        back = dict(ARGS0) if name == "nm_mc" else {"w": ARGS0["w"]}
+        try:
+            sol.start(st, float(TL[0]), seed=5)
+            sol.step(float(TL[1]))
+            sol.run(st, TL, ntraj=2, e_ops=eops, seeds=79, args=other)
+            if name in ("sse", "sme"):
+                r0 = sol.run(st, TL, ntraj=1, e_ops=eops, seeds=81, args=back)
+                try:
+                    sol.run_from_experiment(st, TL, np.array(r0.measurement[0]), e_ops=eops, measurement=True)
+                except (ValueError, NotImplementedError, TypeError):
+                    pass
+            compare("after-other-arguments-and-interfaces", sol.run(st, TL, ntraj=3, e_ops=eops, seeds=list(seeds[:3]), args=back), [0, 1, 2])
+        except core.CaseTimeout:
+            raise
+        except Exception as e:      # noqa
+            viol.append((f"reuse-raises:{name}", f"{name}: reuse with other arguments raises {type(e).__name__}: {e}"[:200]))
         # (2b) a run over a later time range after a run over the whole range, vs a fresh solver
         solA, st = make_solver(name)
         solA.run(st, TL, ntraj=2, e_ops=eops, seeds=list(seeds[:2]))
